@@ -27,7 +27,14 @@ Loops over symbolic sequences carry *per-iteration ghost-event invariants*: the 
 iteration i states exactly which events (append / write / yield / map) the iteration produced and with which values;
 `member-loops-run-to-completion` rules out early exits.  The end-to-end statement is the composition of these layers
 (PY-LIST-ORDER for lists built by append); `decode` (lzma), zipfile / tarfile member reads, the file system and the
-member extractors are uninterpreted (Trust).  Recorded known findings: F25, F26, F27 (known_findings.json) with
+member extractors are uninterpreted (Trust).  Robustness (round 3): loop specifications are selected by ROLE (what the loop iterates over, never its position or
+the names of locals) and follow a loop into helpers the code is refactored into (helpers are executed in place);
+a comprehension is executed as the loop it abbreviates; `yield from gen` carries the obligation of the `for`/`yield`
+loop it replaces.  A refutation at the SMT level is never reported by itself: every refuted obligation, every
+obligation whose clause does not recognise a shape, and every locked obligation the changed code no longer
+generates is `unknown` and handed to the native replayer (replay/C10.py); VIOLATION = a failing input reproduced on
+the real code.
+Recorded known findings: F25, F26, F27 (known_findings.json) with
 proposed fixes for F25 (proposed_fixes/C10_F25.diff) and F27 (C10_F27.diff); F10 is fixed in /repo.
 """
 import ast
